@@ -250,3 +250,51 @@ Proof.
     assert (0 < (2 * t - (P + Q)) * (2 * t + (P + Q))) by (apply Rmult_lt_0_compat; lra). nra. }
   unfold P, Q in H2t. nra.
 Qed.
+
+(* ================================================================ any r x c layout: |M x|^2 <= (sum_ij n_ij^2) |x|^2 *)
+Fixpoint vsum (ys : list (list R)) : list R := match ys with [] => [] | y :: ys' => vaddR y (vsum ys') end.
+
+(* a block row: operators with their squared norm bounds, applied to the parts x_j of the input and summed *)
+Definition block := ((list R -> list R) * R)%type.
+Definition apply_row (row : list block) (xs : list (list R)) : list R :=
+  vsum (map (fun bx : block * list R => fst (fst bx) (snd bx)) (combine row xs)).
+Definition norm_ok (b : block) : Prop := 0 <= snd b /\ forall x, dotR (fst b x) (fst b x) <= snd b * dotR x x.
+Definition sqnorms (xs : list (list R)) : R := rsum (map (fun x => dotR x x) xs).
+
+Lemma rsum_nonneg l : Forall (fun a => 0 <= a) l -> 0 <= rsum l.
+Proof. induction 1; cbn; lra. Qed.
+
+Lemma sqnorms_nonneg xs : 0 <= sqnorms xs.
+Proof. unfold sqnorms. induction xs as [|x xs IH]; cbn; [lra|]. pose proof (dotR_nonneg x). lra. Qed.
+
+(* one block row (horizontal layout with any number of blocks), by induction with the two-block bound *)
+Lemma row_sum_of_squares_bound (row : list block) : Forall norm_ok row -> forall xs,
+  dotR (apply_row row xs) (apply_row row xs) <= rsum (map snd row) * sqnorms xs.
+Proof.
+  induction 1 as [|b row [Hb0 Hb] Hrow IH]; intros xs.
+  - unfold apply_row. cbn. pose proof (sqnorms_nonneg xs). lra.
+  - destruct xs as [|x xs].
+    + unfold apply_row, sqnorms. cbn. assert (0 <= rsum (map snd row)).
+      { apply rsum_nonneg. apply Forall_map. eapply Forall_impl; [|exact Hrow]. intros c [H0 _]. exact H0. }
+      nra.
+    + unfold apply_row, sqnorms. cbn [combine map vsum rsum fst snd].
+      apply horizontal_sum_of_squares_bound.
+      * exact Hb0.
+      * apply rsum_nonneg. apply Forall_map. eapply Forall_impl; [|exact Hrow]. intros c [H0 _]. exact H0.
+      * apply dotR_nonneg.
+      * apply (sqnorms_nonneg xs).
+      * apply Hb.
+      * apply (IH xs).
+Qed.
+
+(* the whole grid: the output is the stack of the rows, its squared norm the sum over the rows *)
+Definition apply_grid_sq (grid : list (list block)) (xs : list (list R)) : R :=
+  rsum (map (fun row => dotR (apply_row row xs) (apply_row row xs)) grid).
+Definition sum_of_squares (grid : list (list block)) : R := rsum (map (fun row => rsum (map snd row)) grid).
+
+Theorem grid_sum_of_squares_bound (grid : list (list block)) : Forall (Forall norm_ok) grid -> forall xs,
+  apply_grid_sq grid xs <= sum_of_squares grid * sqnorms xs.
+Proof.
+  unfold apply_grid_sq, sum_of_squares. induction 1 as [|row grid Hrow _ IH]; intros xs; cbn [map rsum]; [lra|].
+  pose proof (row_sum_of_squares_bound row Hrow xs). specialize (IH xs). lra.
+Qed.
